@@ -1102,8 +1102,15 @@ def r15_5_decisions(ctx):
         raise AnalysisError('anchor missing: pair loop over the attribute mapping in index_attribute_to_map')
     kv, vv = (f.alpha.text(x) for x in lo.target.elts)
     va, ka = f.fi.params[3], f.fi.params[2]
+    def through(e, depth=3):
+        """alpha text of e, following a local that was re-bound per branch to the one definition that reaches this use"""
+        if isinstance(e, ast.Name) and depth > 0:
+            ds = reaching_defs(f, e, e.id)
+            if len(ds) == 1 and isinstance(ds[0], ast.Assign) and len(ds[0].targets) == 1 and isinstance(ds[0].targets[0], ast.Name):
+                return through(ds[0].value, depth - 1)
+        return f.alpha.text(e)
     short = [n for n in ast.walk(lo) if isinstance(n, ast.Call) and isinstance(n.func, ast.Attribute) and n.func.attr == 'append'
-             and n.args and isinstance(n.args[0], ast.Tuple) and f.alpha.text(n.args[0].elts[1]) == '%s.value[0][1]' % vv]
+             and n.args and isinstance(n.args[0], ast.Tuple) and through(n.args[0].elts[1]) == '%s.value[0][1]' % vv]
     for a in short:
         at = {x for x in _inloop_atoms(f, a, lo) if 'isinstance' not in x[0]}
         exp = {('len(%s.value) == 1' % vv, True), ('%s.value[0][0].value == %s' % (vv, va), True)}
